@@ -1,8 +1,12 @@
 """C09 — an RDB snapshot restores exactly the saved dataset.
 
 Deciding artefact: lean/FerrousSpec/Props/C09.lean (length forms, strings, every value type, the
-whole snapshot: `decSnapshot (encSnapshot d t) t' = live t' d` for all datasets, with `_partial`
-variants and witness lemmas for the three deviations of the pinned tree).
+whole snapshot: `decSnapshot (saveSnapshot d t) t' = live t' d` for all datasets, with `_partial`
+variants and witness lemmas for the three deviations of the pinned tree).  The third deviation — a
+list headed by the stream marker string is read back as a stream (finding F23b) — is repaired by an
+escape element; `source_facts` reads both halves of that rule from rdb.rs (listEscapeRead /
+listEscapeWrite), the Lean drivers are configured with them, and the check follows the tree: without
+the rule the shape is the known finding, with it every list must round-trip.
 
 This module ties `Ferrous.Rdb.encSnapshot/decSnapshot` to the real `RdbEngine::{save,load}` +
 `StorageEngine` (in-process, harness/src/bin/impl_rdb.rs) and evaluates the property's own oracle
@@ -242,7 +246,7 @@ SCORES = [0x7FF0000000000000, 0xFFF0000000000000, 0x0000000000000000, 0x80000000
           0x000FFFFFFFFFFFFF, 0x0010000000000000, 0x7FEFFFFFFFFFFFFF, 0xFFEFFFFFFFFFFFFF, FIN(1.0), FIN(-1.5), FIN(3.141592653589793),
           FIN(1e-300), FIN(-123456789.125), 0x8000000000000001]
 U64 = (1 << 64) - 1
-POOL = [b"", b"a", b"\x00", b"\xff", b"\r\n", b"\x00\xff\r\n\x80", MARKER, MARKER + b"x", MARKER[:-1], b"\xff" * 9, b"\xfe\x00\xfb\x01\x01",
+POOL = [b"", b"a", b"\x00", b"\xff", b"\r\n", b"\x00\xff\r\n\x80", MARKER, MARKER + b"x", MARKER[:-1], ESCAPE, ESCAPE + b"x", ESCAPE[1:], b"\xff" * 9, b"\xfe\x00\xfb\x01\x01",
         b"\xfc", b"\xfa", b"5-0", b"0", b"-", b"+1", b"1", b"18446744073709551615", b"redis-ver", b"REDIS0009"]
 
 
@@ -308,8 +312,15 @@ def gen_value(r, t, n=None):
         return gen_bytes(r, big=True)
     if t == "L":
         xs = [gen_bytes(r) for _ in range(n)]
-        if xs[0] == MARKER:
-            xs[0] = b"m"                       # the marker-headed list is its own (corpus) case
+        # lists headed by a reserved string of the format (the subject of the escape rule, finding F23b) at a fixed rate: on a tree
+        # without the rule a marker-headed list can make the whole load fail, which hides every other key of that dataset
+        k = r.below(16)
+        if k < 2:
+            xs[0] = (MARKER, ESCAPE)[k]
+            if r.chance(1, 2):
+                xs[1:1] = r.choice([[ESCAPE], [MARKER], [ESCAPE, MARKER], [b"1-0", b"1", b"f", b"v"]])
+        elif xs[0] in (MARKER, ESCAPE):
+            xs[0] = b"m"
         return xs
     if t == "T":
         return distinct(r, n)
@@ -318,6 +329,17 @@ def gen_value(r, t, n=None):
     if t == "Z":
         return [(m, gen_score(r)) for m in distinct(r, n)]
     return gen_stream(r, n)
+
+
+STREAMLIKE = [b"1-0", b"1", b"f", b"v"]                                     # what a stream with the entry 1-0 {f: v} writes after its marker
+# lists headed by the escape string: ordinary lists for a tree without the rule, escaped by a tree with it
+ESCAPE_HEADED = [[ESCAPE], [ESCAPE, b"a"], [ESCAPE, MARKER], [ESCAPE, ESCAPE], [ESCAPE, ESCAPE, MARKER, b"a"], [ESCAPE, MARKER] + STREAMLIKE,
+                 [ESCAPE] + STREAMLIKE, [ESCAPE, b""]]
+# marker-headed lists a tree without the rule reads back as a stream (the tail is a sequence of well-formed entries, or empty) …
+MARKER_STREAMLIKE = [[MARKER], [MARKER] + STREAMLIKE, [MARKER, b"1-0", b"2", b"f", b"v", b"g", b"w", b"5-5", b"1", b"a", b"b"]]
+# … and those that leave unread strings behind in its entry loop (the whole dump is then refused)
+MARKER_OTHER = [[MARKER, b"a"], [MARKER, ESCAPE], [MARKER, MARKER], [MARKER, b"a", b"b", b"c"], [MARKER, ESCAPE, MARKER] + STREAMLIKE,
+                [MARKER, b"1-0", b"0"], [MARKER, b""]]
 
 
 def gen_dataset(r, ttl_classes):
@@ -376,7 +398,22 @@ def handmade(ver):
         return (bytes([len(b)]) if len(b) < 64 else bytes([0x40 | (len(b) >> 8), len(b) & 0xFF])) + b
     eof = b"\xff" + b"\0" * 8
     mk = s(MARKER)
+    es = s(ESCAPE)
+    far = b"\xfc" + struct.pack("<Q", 4102444800000)          # expires in the year 2100
     return [
+        # the escape element in places the writer never puts it (with and without the rule in the tree: model loader = real loader)
+        ("escape-only", hdr + b"\x01" + s(b"k") + b"\x01" + es + eof), ("escape-then-list", hdr + b"\x01" + s(b"k") + b"\x03" + es + s(b"a") + s(b"b") + eof),
+        ("escape-then-marker-entries", hdr + b"\x01" + s(b"k") + b"\x06" + es + mk + s(b"1-0") + s(b"1") + s(b"f") + s(b"v") + eof),
+        ("escape-twice", hdr + b"\x01" + s(b"k") + b"\x03" + es + es + s(b"a") + eof), ("marker-then-escape", hdr + b"\x01" + s(b"k") + b"\x02" + mk + es + eof),
+        ("escape-list-over-string", hdr + b"\x00" + s(b"k") + s(b"v") + b"\x01" + s(b"k") + b"\x02" + es + s(b"a") + eof),
+        ("escape-only-over-string", hdr + b"\x00" + s(b"k") + s(b"v") + b"\x01" + s(b"k") + b"\x01" + es + eof),
+        ("escape-only-over-string-ttl", hdr + b"\x00" + s(b"k") + s(b"v") + far + b"\x01" + s(b"k") + b"\x01" + es + eof),
+        ("escape-db16", hdr + b"\xfe\x10\x01" + s(b"k") + b"\x02" + es + s(b"a") + eof), ("escape-only-db16", hdr + b"\xfe\x10\x01" + s(b"k") + b"\x01" + es + eof),
+        ("escape-only-db16-ttl", hdr + b"\xfe\x10" + far + b"\x01" + s(b"k") + b"\x01" + es + eof),
+        ("escape-append-to-list", hdr + b"\x01" + s(b"k") + b"\x01" + s(b"a") + b"\x01" + s(b"k") + b"\x02" + es + s(b"b") + eof),
+        ("escape-count-too-big", hdr + b"\x01" + s(b"k") + b"\x03" + es + s(b"a") + eof), ("escape-count-too-small", hdr + b"\x01" + s(b"k") + b"\x01" + es + s(b"a") + eof),
+        ("escape-expired", hdr + b"\xfc" + struct.pack("<Q", 1000) + b"\x01" + s(b"k") + b"\x02" + es + mk + b"\x00" + s(b"o") + s(b"v") + eof),
+        ("escape-in-set-and-hash", hdr + b"\x02" + s(b"t") + b"\x02" + es + mk + b"\x04" + s(b"h") + b"\x01" + es + mk + eof),
         ("empty-body", hdr + eof), ("no-checksum", hdr + b"\xff"), ("plus-version", b"REDIS+009" + eof), ("bad-version", b"REDIS-009" + eof),
         ("bad-version2", b"REDIS00a9" + eof), ("bad-magic", b"REDIX0009" + eof), ("short-header", b"REDIS00"),
         ("db16-string", hdr + b"\xfe\x10\x00" + s(b"k") + s(b"v") + eof), ("db16-empty-list", hdr + b"\xfe\x10\x01" + s(b"k") + b"\x00" + eof),
@@ -561,15 +598,19 @@ class C09:
             # ---- the theorems' hypotheses on this very dataset
             if not big:
                 h = self.mask("hyps %d %d %s" % (ts1, tl1, tokens(d0))).split(" ")
-                rep.count("hyps.wf=%s marker=%s emptystream=%s expires=%s" % tuple(h))
+                rep.count("hyps.wf=%s marker=%s emptystream=%s expires=%s reserved=%s" % tuple(h))
                 if h[0] != "1":
                     raise InternalError("case %s: generated dataset is outside datasetWF (generator fault)" % name)
-                covered = h[1] == "0" and (h[2] == "0" or self.facts["keepEmptyStream"]) and (h[3] == "0" or self.facts["dropExpired"])
+                # lists: every list with the escape rule on both sides (snapshot_roundtrip), none headed by the marker without it
+                # (snapshot_roundtrip_partial), none headed by a reserved string when only one half is there (snapshot_load_across_versions)
+                rd, wr = self.facts["listEscapeRead"], self.facts["listEscapeWrite"]
+                lists_ok = True if (rd and wr) else h[1] == "0" if not (rd or wr) else h[4] == "0"
+                covered = lists_ok and (h[2] == "0" or self.facts["keepEmptyStream"]) and (h[3] == "0" or self.facts["dropExpired"])
                 if covered and [x for x in diffs]:
                     # theorem + correspondence say this cannot happen: report as a new failure even if it looks like a known shape
                     for dfx in diffs:
                         if dfx not in new:
-                            self.oracle_failures.append((name, dfx, case, {"note": "hypotheses of snapshot_roundtrip_partial hold for this dataset"}))
+                            self.oracle_failures.append((name, dfx, case, {"note": "hypotheses of snapshot_roundtrip / snapshot_roundtrip_partial (for this tree's switches) hold for this dataset"}))
         # ---- correspondence (ii): the real loader reads the model's file
         if case.get("lean", True):
             tmid = (ts0 + ts1) // 2
@@ -598,19 +639,23 @@ class C09:
         (db, key), kind, got, want = d
         return {"db": db, "key": hx(key) if isinstance(key, bytes) else key, "kind": kind, "after_restart": describe(got), "prescribed": describe(want)}
 
-    def classify(self, d, c0, ts0, tl1):
+    def classify(self, d, c0, ts0, tl1, unloadable=False):
         """shape of a known finding? (matched by shape, not by property id)"""
         (k, kind, got, want) = d
-        if kind == "load-failed":
+        # with both halves of the escape rule in the source the marker shape excuses nothing: a list that does not come back is a failure
+        marker_open = not escape_rule(self.facts)
+        if kind == "load-failed" or (unloadable and (kind == "missing" or kind.startswith("extra-keys"))):
             # a marker-headed list whose tail is not an entry sequence leaves unread strings behind: the whole load fails
-            return "marker-list-as-stream" if any(t == "L" and v and v[0] == MARKER for (_, t, v) in c0.values()) else None
+            # (over TCP: the server starts with the keys read before that point; `unloadable` = the model of this tree refuses the file too)
+            return "marker-list-as-stream" if marker_open and any(t == "L" and v and v[0] == MARKER for (_, t, v) in c0.values()) else None
         orig = c0.get(k)
         if orig is None:
-            return None
+            # a key nobody stored: the strings such a list leaves unread are parsed as opcodes, which can also yield pairs instead of an error
+            return "marker-list-as-stream" if kind == "extra" and marker_open and any(t == "L" and v and v[0] == MARKER for (_, t, v) in c0.values()) else None
         dl, t, v = orig
         if kind == "extra" and dl is not None and ts0 - TOL <= dl <= tl1 + TOL and got is not None and got[0] is None and got[1:] == orig[1:]:
             return "expired-at-load-immortal"
-        if t == "L" and len(v) >= 1 and v[0] == MARKER and kind in ("missing", "value") and (got is None or got[1] == "X"):
+        if marker_open and t == "L" and len(v) >= 1 and v[0] == MARKER and kind in ("missing", "value") and (got is None or got[1] == "X"):
             return "marker-list-as-stream"
         if t == "X" and len(v) == 0 and kind == "missing":
             return "empty-stream-lost"
@@ -749,8 +794,9 @@ class C09:
         if extra_keys and not indet:
             diffs.append((("*", b"*"), "extra-keys:%d" % extra_keys, None, None))
         case = {"name": name, "kind": "tcp-restart", "ds": ds, "down": down_ms}
+        r = self.lean_dec(tl1, f)
         for dfx in diffs:
-            m = self.classify(dfx, c0, ts0, tl1)
+            m = self.classify(dfx, c0, ts0, tl1, unloadable=(r[0] == "err"))
             if m:
                 self.known_hits.setdefault(m, (case, self.show_diff(dfx)))
                 rep.count("known." + m)
@@ -762,14 +808,25 @@ class C09:
         _, ads = self.dump()
         now2 = (int(w[1]) + int(w[2])) // 2
         ca = canon(ads)
+        if w[0] == "err":
+            # a refused dump leaves what was read before the failing point, possibly with keys made of the bytes that were misread after it:
+            # those have no name the point reads could ask for — compare their number with what DBSIZE showed, and the generated keys one by one
+            junk = [k for k in ca if k not in c0]
+            ca = {k: v for k, v in ca.items() if k in c0}
+            if len(junk) != extra_keys and set(db for db, _ in junk) <= set(db for db, _ in ds):
+                self.disagreements.append({"what": "refused dump.rdb: the restarted server holds %d keys beyond the generated ones, in-process RdbEngine::load %d" % (extra_keys, len(junk)), "file": hx(f[:2000])})
         near = indet | set(k for k, (dl, _, _) in c0.items() if dl is not None and abs(dl - now2) <= TOL + (now2 - tl0))
         dd = diff(got, ca, near)
         if dd:
             self.disagreements.append({"what": "server restart and in-process RdbEngine::load disagree on the same dump.rdb", "diff": [self.show_diff(x) for x in dd[:4]], "file": hx(f[:2000])})
-        r = self.lean_dec(tl1, f)
-        dd = diff(got, canon(r[3]) if r[0] == "ok" else {}, indet)
-        if dd:
-            self.disagreements.append({"what": "server restart and model decSnapshot disagree on the same dump.rdb", "diff": [self.show_diff(x) for x in dd[:4]], "file": hx(f[:2000])})
+        if r[0] != w[0]:
+            self.disagreements.append({"what": "in-process RdbEngine::load says %s, model decSnapshot says %s on the server's dump.rdb" % (w[0], r[0]), "file": hx(f[:2000])})
+        elif r[0] == "ok":
+            dd = diff(got, canon(r[3]), indet)
+            if dd:
+                self.disagreements.append({"what": "server restart and model decSnapshot disagree on the same dump.rdb", "diff": [self.show_diff(x) for x in dd[:4]], "file": hx(f[:2000])})
+        else:
+            rep.count("tcp.dump-refused-by-loader-and-model")
 
     # -- corrupted files: model loader vs real loader ---------------------------
     def run_file(self, name, f, kind):
@@ -819,6 +876,24 @@ class C09:
                                                                           E(b"ok", "L", [b"a", MARKER]), E(b"s", "S", MARKER), E(MARKER, "T", [MARKER])])]})
         # the rest of the list is not an entry sequence: the loader leaves it unread and then parses it as opcodes -> the whole file is refused
         cases.append({"name": "marker-list-unloadable", "kind": "marker", "ds": [(0, [E(b"n", "L", [MARKER, b"a"]), E(b"other", "S", b"v")])]})
+        # the escape rule (finding F23b).  Lists headed by the escape string, in every database, with and without TTL, next to real
+        # streams (one with the contents the stream-like lists imitate, the empty stream) — ordinary lists for a tree without the rule
+        def stream_neighbours(i):
+            return [E(b"x", "X", [(1, 0, [(b"f", b"v")])], LONG if i % 2 else None), E(b"x0", "X", []), E(MARKER, "T", [MARKER, ESCAPE]), E(ESCAPE, "S", MARKER),
+                    E(b"tail", "L", [b"a", MARKER, ESCAPE])]
+        cases.append({"name": "escape-headed-lists-16dbs", "kind": "escape", "ds": [
+            (i, [E(b"e%d" % j, "L", v, LONG if (i + j) % 3 == 0 else None) for j, v in enumerate(ESCAPE_HEADED)] + stream_neighbours(i)) for i in range(16)]})
+        # marker-headed lists whose tail reads as stream entries: a tree without the rule loads the dump and turns them into streams
+        cases.append({"name": "marker-headed-streamlike-lists-16dbs", "kind": "marker", "ds": [
+            (i, [E(b"m%d" % j, "L", v, LONG if (i + j) % 2 == 0 else None) for j, v in enumerate(MARKER_STREAMLIKE)] + stream_neighbours(i)) for i in range(16)]})
+        # every reserved head in every database (a tree without the rule refuses this dump as a whole)
+        cases.append({"name": "reserved-headed-lists-16dbs", "kind": "marker", "ds": [
+            (i, [E(b"r%d" % j, "L", v, LONG if (i + j) % 3 == 1 else None) for j, v in enumerate(MARKER_OTHER + MARKER_STREAMLIKE + ESCAPE_HEADED)] + stream_neighbours(i))
+            for i in range(16)]})
+        # the deadline passes during the downtime: the pair is read (escape element and all) and the key removed again
+        cases.append({"name": "reserved-headed-lists-expired-during-downtime", "kind": "marker", "down": 450, "ds": [(i, [
+            E(b"gone%d" % j, "L", v, 150) for j, v in enumerate(ESCAPE_HEADED[:4] + MARKER_STREAMLIKE[:2])] + [
+            E(b"keep%d" % j, "L", v, LONG) for j, v in enumerate(ESCAPE_HEADED[:4])] + [E(b"x", "X", [(1, 0, [(b"f", b"v")])], 150), E(b"s", "S", b"v")]) for i in (0, 9)]})
         cases.append({"name": "empty-stream", "kind": "emptystream", "ds": [(3, [E(b"s", "X", []), E(b"t", "X", [(7, 7, [(b"f", b"v")])])])]})
         cases.append({"name": "expired-before-save", "kind": "ttl", "pre": 150, "bytes": False, "ds": [(2, [E(b"gone", "S", b"v", 40), E(b"gonel", "L", [b"a"], 40), E(b"stay", "S", b"w", LONG), E(b"plain", "H", [(b"f", b"v")])])]})
         cases.append({"name": "ttl-survives-downtime", "kind": "ttl", "down": 300, "ds": [(1, [E(b"a", "S", b"v", LONG), E(b"b", "Z", [(b"m", 0)], 2000), E(b"c", "X", [(1, 1, [(b"f", b"v")])], 5000), E(b"d", "L", [b""], 86400000)])]})
@@ -834,6 +909,9 @@ class C09:
         # element counts
         for n in [1, 63, 64, 16383, 16384, 65536, 70000]:
             cases.append({"name": "list-count-%d" % n, "kind": "count", "ds": [(0, [E(b"l", "L", [b"", b"a", b"bc"] * (n // 3) + [b"z"] * (n % 3))])]})
+        # … and of escape-headed lists: with the rule the declared length is n + 1 (62/63 and 16382/16383 sit on the length-form borders)
+        for n in [62, 63, 64, 16382, 16383, 16384]:
+            cases.append({"name": "escaped-list-count-%d" % n, "kind": "count", "ds": [(0, [E(b"l", "L", [ESCAPE] + [b"", b"a", MARKER] * ((n - 1) // 3) + [b"z"] * ((n - 1) % 3))])]})
         for n in [0, 1, 63, 64, 300, 16383, 16384, 65536]:
             ds = [E(b"t", "T", n_distinct(n)), E(b"h", "H", [(m, b"v") for m in n_distinct(n)])]
             if n > 0:
@@ -878,7 +956,18 @@ class C09:
         tds[6][1].append({"key": b"z", "dl": LONG, "ty": "Z", "val": [(b"m%d" % i, b) for i, b in enumerate(SCORES) if b not in (0x8000000000000001,)]})
         tds[7][1].append({"key": b"markerlist", "dl": None, "ty": "L", "val": [MARKER, b"1-0", b"1", b"f", b"v"]})
         tds[8][1].append({"key": b"big", "dl": None, "ty": "S", "val": tr.bytes(16384)})
+        # reserved heads a tree without the escape rule still loads (escape-headed: ordinary lists; marker-headed with a stream-like tail)
+        for i, v in enumerate(ESCAPE_HEADED):
+            tds[9 + i % 7][1].append({"key": b"esc%d" % i, "dl": [None, LONG][i % 2], "ty": "L", "val": v})
+        tds[11][1].append({"key": b"markeronly", "dl": LONG, "ty": "L", "val": [MARKER]})
+        tds[12][1].append({"key": b"x", "dl": 150, "ty": "X", "val": [(1, 0, [(b"f", b"v")])]})
+        tds[12][1].append({"key": b"escgone", "dl": 150, "ty": "L", "val": [ESCAPE, MARKER, b"a"]})
         self.tcp_restart(tds, 450, "tcp-restart-16dbs")
+        # every reserved head in every database next to real streams, with TTLs (a tree without the rule refuses this dump)
+        rds = [(i, [{"key": b"r%d" % j, "dl": [None, LONG, None][(i + j) % 3], "ty": "L", "val": v} for j, v in enumerate(MARKER_OTHER + MARKER_STREAMLIKE + ESCAPE_HEADED) if (i + j) % 4 == 0 or i == 0] +
+                [{"key": b"x", "dl": [LONG, None][i % 2], "ty": "X", "val": [(1, 0, [(b"f", b"v")])]}, {"key": b"x0", "dl": None, "ty": "X", "val": []},
+                 {"key": b"gone", "dl": 150, "ty": "L", "val": [MARKER, b"a"]}, {"key": b"same", "dl": None, "ty": "S", "val": b"db%d" % i}]) for i in range(16)]
+        self.tcp_restart(rds, 450, "tcp-restart-reserved-heads")
         for i in range(0 if tier == "quick" else 12):
             self.tcp_restart(gen_dataset(tr, [None, LONG, 140, 200]), 420, "tcp-restart-random-%d" % i)
         # loader inputs the writer never produces
@@ -967,7 +1056,8 @@ def shrink_case(c, chk, case):
 
 def main(tier, seed):
     rep = Report("C09", tier, seed)
-    rep.rule = ("datasets (all six types, binary keys/values incl. the marker string and opcode-like bytes, string/key lengths and element counts "
+    rep.rule = ("datasets (all six types, binary keys/values incl. the marker and the escape string — as keys, members, and as the FIRST element of lists in every database, "
+                "with TTLs, next to real streams —, opcode-like bytes, string/key lengths and element counts "
                 "0/1/63/64/16383/16384/65536/70000, scores incl. ±inf/±0/subnormals, stream IDs up to 2^64-1, all 16 databases, no/long/short TTLs) are "
                 "put into a real StorageEngine, saved by the real RdbEngine, loaded into a fresh engine after a measured downtime and dumped through the "
                 "engine getters (oracle: equals live(t_load, dataset)); the same file is decoded by the Lean model, re-encoded by the Lean model (byte "
@@ -1003,7 +1093,8 @@ def main(tier, seed):
                 rep.known(by_match[m]["id"], by_match[m]["what"])
             else:
                 c.oracle_failures.append((case["name"], ((det["db"], det["key"]), m, None, None), case, {"note": "shape '%s' is not a listed finding" % m, "detail": det}))
-        fixed_by_source = {"expired-at-load-immortal": facts["dropExpired"], "empty-stream-lost": facts["keepEmptyStream"]}
+        fixed_by_source = {"expired-at-load-immortal": facts["dropExpired"], "empty-stream-lost": facts["keepEmptyStream"],
+                           "marker-list-as-stream": escape_rule(facts)}
         for f in findings:
             if f.get("match") not in c.known_hits and not fixed_by_source.get(f.get("match"), False):
                 rep.violation("known finding %s no longer reproduces although the source still looks unfixed: model/known-findings file is stale" % f["id"],
@@ -1011,6 +1102,12 @@ def main(tier, seed):
         if not facts["clockPerKey"]:
             c.disagreements.append({"what": "read_key_value_with_expiry no longer reads the wall clock itself: the model's per-key load instant (decSnapshot d t') "
                                             "is not what the loader uses — deadlines of keys late in a large file slip by the load time of the keys before them"})
+        if facts["listEscapeRead"] != facts["listEscapeWrite"]:
+            c.disagreements.append({"what": "only one half of the escape rule for lists headed by the stream marker is in rdb.rs (loader: %s, write_key_value: %s): "
+                                            "writer and loader no longer agree on the LIST encoding" % (facts["listEscapeRead"], facts["listEscapeWrite"])})
+        if facts["listEscapeRepl"] != facts["listEscapeWrite"]:
+            c.disagreements.append({"what": "write_key_value and the replication encoder generate_rdb_bytes disagree on the escape rule for lists (%s vs %s): "
+                                            "the two writers of the same format differ" % (facts["listEscapeWrite"], facts["listEscapeRepl"])})
         if facts["marker_sites"] < 2:
             c.disagreements.append({"what": "stream marker literal %r not found at both the writer and the loader site of rdb.rs" % MARKER.decode()})
         if c.oracle_failures:
